@@ -73,6 +73,14 @@ def r1_template(ctx, chk, rule="C11.1"):
         if t[0] == "strcat":
             a, b = piece_text(t[1]), piece_text(t[2])
             return None if a is None or b is None else a + b
+        if t[0] == "fstr":
+            parts = [piece_text(x) for x in t[1]]
+            return None if any(x is None for x in parts) else "".join(parts)
+        if t[0] == "fmt" and t[2] == -1 and t[3] is None:
+            inner = t[1]
+            if inner[0] == "call" and inner[1] in ("int", "float", "round", "len"):
+                return "7"
+            return piece_text(inner)
         if t[0] == "call" and t[1] == "str" and t[2] and t[2][0][0] == "call" and t[2][0][1] in ("int", "float", "round"):
             return "7"
         if t[0] == "idx" and t[1][0] == "v":
